@@ -1260,9 +1260,17 @@ def _run_allclose(
             )
 
         if _is_floating_dtype(expected_arr) or _is_floating_dtype(got_arr):
+            # Only align floating widths; casting a floating model output to an
+            # integer/bool expectation would truncate the very difference we
+            # are looking for.
+            got_cmp = (
+                got_arr.astype(expected_arr.dtype, copy=False)
+                if _is_floating_dtype(expected_arr)
+                else got_arr
+            )
             if not np.allclose(
                 expected_arr,
-                got_arr.astype(expected_arr.dtype, copy=False),
+                got_cmp,
                 rtol=rtol,
                 atol=atol,
                 equal_nan=True,
@@ -1274,9 +1282,9 @@ def _run_allclose(
                     f"Output {idx} mismatch (max abs diff {max_diff}, rtol={rtol}, atol={atol})",
                 )
         else:
-            if not np.array_equal(
-                expected_arr, got_arr.astype(expected_arr.dtype, copy=False)
-            ):
+            # Compare by value: a cast to the expected dtype would wrap integers
+            # that do not fit and collapse non-zero integers to True.
+            if not np.array_equal(expected_arr, got_arr):
                 return (False, f"Output {idx} mismatch (non-floating tensors differ)")
 
     return True, "Outputs match within tolerance."
